@@ -350,6 +350,34 @@ fn bulk_op(rng: &mut Rng, ctx: &Ctx, fam: &Fam, kind: &str, n: usize, with_edges
             *q = (a, b);
         }
     }
+    else if n >= 4 && rng.chance(300) {
+        // one or two outliers far away from the rest: the last sweep steps see a large part of the
+        // boundary at once (long clockwise / counter-clockwise walks, the 90-degree rule,
+        // fix_convexity afterwards)
+        let (mut lox, mut hix, mut loy, mut hiy) = (f64::MAX, f64::MIN, f64::MAX, f64::MIN);
+        for p in &pts {
+            lox = lox.min(p.0);
+            hix = hix.max(p.0);
+            loy = loy.min(p.1);
+            hiy = hiy.max(p.1);
+        }
+        let r = (hix - lox).max(hiy - loy);
+        if r > 0.0 && r.is_finite() {
+            let exact = matches!(fam.name.as_str(), "grid" | "line" | "circle" | "offset");
+            for _ in 0..1 + rng.below(2) {
+                let k = *rng.pick(&[2.0, 3.0, 8.0, 30.0]);
+                let (dx, dy) = (rng.range(-4, 5) as f64, rng.range(-4, 5) as f64);
+                if dx == 0.0 && dy == 0.0 {
+                    continue;
+                }
+                let rr = if exact { r.ceil() } else { r };
+                let q = ((lox + hix) / 2.0 + dx * k * rr / 4.0, (loy + hiy) / 2.0 + dy * k * rr / 4.0);
+                let q = if exact { (q.0.round(), q.1.round()) } else { q };
+                let at = rng.below(pts.len() as u64 + 1) as usize;
+                pts.insert(at, q);
+            }
+        }
+    }
     let n = pts.len();
     let mut t = vec![s("bulk"), s(kind), n.to_string()];
     for (i, p) in pts.iter().enumerate() {
